@@ -5,7 +5,7 @@ from __future__ import annotations
 import numpy as np
 from shapely.geometry import Polygon
 
-from .. import builders, ref
+from .. import builders, ref, sequences
 from ..runner import LibraryRaised, Recorder, lib
 
 PROPERTY = 'C02'
@@ -18,6 +18,7 @@ RULE = (
     "coordinates stored at native index n; centre n == stored centre / centroid; spatial-index hits "
     "== brute force.  Non-trivial: datasets with holes, non-square or skewed grids, multi-kind."
     ' Also: datasets reopened from netCDF, dask-backed variables, reversed dimension declaration, meshes with faces that have no geometry or nodes that belong to no face, and a second dataset of the same shape alive and used at the same time (nothing may leak between the two).'
+    " Datasets also arrive with a history: warmed convention, copy, deep copy, pickle, netCDF round trip, fully chunked (dask), and hand-built conventions for coordinates autodetection would not pick (decoy pair), after warm / pickle. Also (operation sequences, mc/sequences.py): for 8 base datasets and every sequence `first [middle] query` over 36 operations (queries, in-place edits a user makes, transforms whose result is used next; quick length 2, thorough length 3) ending in one of this property's own queries, the answer on the one used object equals the answer on a never-used rebuild. Second phase: the first case of every distinct outcome and kind (thorough: every case, for expensive checks every kind) again with debug logging enabled, under numpy.errstate(all='ignore'), and in python -O child interpreters."
 )
 LEVEL_TEXT = ('every cell of every grid kind of every dataset in the family list (all conventions, holes, skew, >10 cells): flattened value == value selected through the native index == builder label; polygon / centre / spatial-index position n belong to the cell at native index n')
 LEVEL_NOTE = ('shapely/GEOS as geometry kernel; dyadic coordinates; CF2D derived bounds next to holes not judged')
@@ -31,7 +32,7 @@ def bounds(tier):
     return {'datasets': 'builders.family_specs(tier)', 'cells': 'all', 'variables': 'all on each grid kind'}
 
 
-def cases(tier):
+def _cases_first_call(tier):
     out = list(builders.family_specs(tier))
     out += extra_cases(tier)
     return out
@@ -64,7 +65,7 @@ def extra_cases(tier):
     return out
 
 
-def run_case(case):
+def _run_case_first_call(case):
     rec = Recorder()
     ds, truth = builders.build({k: v for k, v in case.items() if k != 'io'})
     if case.get('io') == 'reopen':
@@ -249,3 +250,16 @@ def run_case(case):
             rec.check(False, f"{fp}/state-shared-between-datasets", "ravel on the second dataset raised", 'values', str(err))
     rec.outcome([family, [tuple(v['shape']) for v in truth.kinds.values()], len(holes)])
     return rec.result()
+
+
+def cases(tier):
+    # first calls on freshly built datasets, then operation sequences on one object (mc/sequences.py)
+    return _cases_first_call(tier) + sequences.cases_for(PROPERTY, tier)
+
+
+def run_case(case):
+    if case.get('part') == 'sequence':
+        rec = Recorder()
+        sequences.run_case(PROPERTY, case, rec)
+        return rec.result()
+    return _run_case_first_call(case)
